@@ -125,7 +125,6 @@ class SimLoop(asyncio.BaseEventLoop):
         world = self.world
         fut = self.create_future()
         peer = world._lookup(host, port)
-        slow = world.stats.get("_slowconn_next", 0)
 
         def done():
             if fut.cancelled():
@@ -136,7 +135,7 @@ class SimLoop(asyncio.BaseEventLoop):
                 fut.set_result(None)
 
         delay = self.draw_latency_ns()
-        if (host, port) in getattr(world, "slow_connect", ()):  # beyond the 5 s wait_for
+        if (host, port) in world.slow_connect or ("*", 0) in world.slow_connect:  # beyond the 5 s wait_for
             delay = 60_000_000_000
             world.stats["slowconn"] += 1
         self.schedule_ext(delay, done, "connect")
